@@ -136,10 +136,12 @@ pub open spec fn is_temp_form<T: Storable>(temp_ids: bool, id: Seq<char>) -> boo
     temp_ids && seq!['!', temp_letter(T::spec_typeinfo())].is_prefix_of(id) && temp_id_number(id) is Some && temp_id_number(id).unwrap() <= T::HandleType::hmax()
 }
 
-/// what a public id resolves to, per the property: the handle in the id map, or (temporary ids
-/// enabled) the number of a temporary id of this kind that fits the handle type
-pub open spec fn resolves_to<T: Storable>(idmap: Map<Seq<char>, T::HandleType>, temp_ids: bool, id: Seq<char>) -> Option<usize> {
-    if temp_ids && seq!['!', temp_letter(T::spec_typeinfo())].is_prefix_of(id) && temp_id_number(id) is Some && temp_id_number(id).unwrap() <= T::HandleType::hmax() {
+/// what a public id resolves to, per the property (C03): (temporary ids enabled) the number of a temporary id of
+/// this kind when that slot holds a live item ("a temporary identifier resolves only to a live item of the right
+/// kind"), otherwise the handle in the id map
+pub open spec fn resolves_to<T: Storable>(store: Seq<Option<T>>, idmap: Map<Seq<char>, T::HandleType>, temp_ids: bool, id: Seq<char>) -> Option<usize> {
+    if temp_ids && seq!['!', temp_letter(T::spec_typeinfo())].is_prefix_of(id) && temp_id_number(id) is Some && temp_id_number(id).unwrap() <= T::HandleType::hmax()
+       && live(store, temp_id_number(id).unwrap() as int) {
         Some(temp_id_number(id).unwrap() as usize)
     } else if idmap.contains_key(id) {
         Some(idmap[id].idx())
@@ -153,10 +155,10 @@ pub open spec fn resolves_to<T: Storable>(idmap: Map<Seq<char>, T::HandleType>, 
 BUILDITEM_SPEC = r'''
 /// the handle index a BuildItem request denotes in a store with this id map: an id resolves through the map (or as a
 /// temporary id), a handle is itself, a reference is the handle the referenced item carries, None denotes nothing
-pub open spec fn bi_denotes<'a, T: Storable>(b: BuildItem<'a, T>, idmap: Option<Map<Seq<char>, T::HandleType>>, temp_ids: bool) -> Option<usize> {
+pub open spec fn bi_denotes<'a, T: Storable>(b: BuildItem<'a, T>, store: Seq<Option<T>>, idmap: Option<Map<Seq<char>, T::HandleType>>, temp_ids: bool) -> Option<usize> {
     match b {
-        BuildItem::Id(s) => match idmap { Some(m) => resolves_to::<T>(m, temp_ids, s@), None => None },
-        BuildItem::IdRef(s) => match idmap { Some(m) => resolves_to::<T>(m, temp_ids, s@), None => None },
+        BuildItem::Id(s) => match idmap { Some(m) => resolves_to::<T>(store, m, temp_ids, s@), None => None },
+        BuildItem::IdRef(s) => match idmap { Some(m) => resolves_to::<T>(store, m, temp_ids, s@), None => None },
         BuildItem::Handle(h) => Some(h.idx()),
         BuildItem::Ref(inst) => match inst.spec_handle() { Some(h) => Some(h.idx()), None => None },
         BuildItem::None => None,
@@ -331,9 +333,9 @@ def emit_storefor(u, P, with_builditem=False):
     def target(suffix):
         # the handle index the request denotes
         if suffix == '__build':
-            return 'bi_denotes::<T>(*item, self.view_idmap(), self.view_temp_ids())'
+            return 'bi_denotes::<T>(*item, self.view_store(), self.view_idmap(), self.view_temp_ids())'
         if suffix == '__str':
-            return "(match self.view_idmap() { Some(m) => resolves_to::<T>(m, self.view_temp_ids(), item@), None => None })"
+            return "(match self.view_idmap() { Some(m) => resolves_to::<T>(self.view_store(), m, self.view_temp_ids(), item@), None => None })"
         return 'Some(item.idx())'
 
     def get_ens(suffix):
@@ -396,8 +398,8 @@ def emit_storefor(u, P, with_builditem=False):
         Fn('resolve_id', props=P + ['C19'], ret='r',
            rewrites=[('R-outline', r'id\.starts_with\(T::temp_id_prefix\(\)\)', 'vx_starts_with(id, T::temp_id_prefix())'),
                      ('R-err', r'id\.to_string\(\)', 'vx_msg()')],
-           ensures=[('ok_iff', 'r is Ok <==> (self.view_idmap() is Some && resolves_to::<T>(self.view_idmap().unwrap(), self.view_temp_ids(), id@) is Some)'),
-                    ('handle', 'r is Ok ==> r->Ok_0.idx() == resolves_to::<T>(self.view_idmap().unwrap(), self.view_temp_ids(), id@).unwrap()')],
+           ensures=[('ok_iff', 'r is Ok <==> (self.view_idmap() is Some && resolves_to::<T>(self.view_store(), self.view_idmap().unwrap(), self.view_temp_ids(), id@) is Some)'),
+                    ('handle', 'r is Ok ==> r->Ok_0.idx() == resolves_to::<T>(self.view_store(), self.view_idmap().unwrap(), self.view_temp_ids(), id@).unwrap()')],
            prologue='proof { T::HandleType::hmax_bound(); }'),
         Fn('next_handle', props=P, ret='r', requires=[('fits', 'self.view_store().len() <= T::HandleType::hmax()')],
            ensures=[('next', 'r.idx() == self.view_store().len()')]),
@@ -410,7 +412,7 @@ def emit_storefor(u, P, with_builditem=False):
     OLDM = 'old(self).view_idmap()'
     UNCH = 'final(self).view_store() == old(self).view_store() && final(self).view_idmap() == old(self).view_idmap()'
     # the id of the item resolves to an existing live item (duplicate id)
-    DUP = f'(T::spec_carries_id() && item.spec_id() is Some && {OLDM} is Some && resolves_to::<T>({OLDM}.unwrap(), old(self).view_temp_ids(), item.spec_id().unwrap()) is Some && live({OLD}, resolves_to::<T>({OLDM}.unwrap(), old(self).view_temp_ids(), item.spec_id().unwrap()).unwrap() as int))'
+    DUP = f'(T::spec_carries_id() && item.spec_id() is Some && {OLDM} is Some && resolves_to::<T>({OLD}, {OLDM}.unwrap(), old(self).view_temp_ids(), item.spec_id().unwrap()) is Some && live({OLD}, resolves_to::<T>({OLD}, {OLDM}.unwrap(), old(self).view_temp_ids(), item.spec_id().unwrap()).unwrap() as int))'
     GEN = '(T::spec_carries_id() && item.spec_id() is None && old(self).view_config().generate_ids)'
     fns.append(Fn('insert', props=P, ret='r',
                   rewrites=[('R-request', r'self\.has\(id\)', 'self.has__str(id)'),
@@ -431,7 +433,7 @@ def emit_storefor(u, P, with_builditem=False):
                             ('unbound_or_next', f'item.spec_handle() is None || item.spec_handle().unwrap().idx() == {OLD}.len()'),
                             ('id_not_temp_form', 'item.spec_id() is Some ==> !is_temp_form::<T>(old(self).view_temp_ids(), item.spec_id().unwrap())')],
                   ensures=[
-                      ('duplicate_rejected', f'{DUP} && !old(self).view_config().merge ==> (r is Err || (r is Ok && r->Ok_0.idx() == resolves_to::<T>({OLDM}.unwrap(), old(self).view_temp_ids(), item.spec_id().unwrap()).unwrap())) && {UNCH}'),
+                      ('duplicate_rejected', f'{DUP} && !old(self).view_config().merge ==> (r is Err || (r is Ok && r->Ok_0.idx() == resolves_to::<T>({OLD}, {OLDM}.unwrap(), old(self).view_temp_ids(), item.spec_id().unwrap()).unwrap())) && {UNCH}'),
                       ('atomic', f'r is Err && !old(self).view_config().merge && (forall|it: T| #![trigger Self::preinsert_ok(old(self).view_rest(), it)] #![trigger Self::inserted_ok(old(self).view_rest(), it)] Self::preinsert_ok(old(self).view_rest(), it) && Self::inserted_ok(old(self).view_rest(), it)) ==> {UNCH}'),
                       ('appends', f'r is Ok && !{DUP} ==> r->Ok_0.idx() == {OLD}.len() && final(self).view_store().len() == {OLD}.len() + 1 && final(self).view_store().take({OLD}.len() as int) =~= {OLD} && final(self).view_store().last() is Some && final(self).view_store().last().unwrap().spec_handle() == Some(r->Ok_0)'),
                       ('keeps_id', f'r is Ok && !{DUP} && !{GEN} ==> final(self).view_store().last().unwrap().spec_id() == item.spec_id()'),
